@@ -1226,10 +1226,40 @@ class GradLifetimeOracle(Observer):
         self.exp = {}  # handle -> ("none",) | ("val", bytes, shape) | ("dc",)
         self.iters = {}
         self.lingering = set()
+        self.ids_seen = {}  # handle -> flat positions in its (former) base, remembered across clears
 
     def before(self, w, ev):
         # views left over from a cleared family that still carry their old .base link
         self.lingering = {h for h, t in w.T.items() if t.base is not None and t.creator is None}
+        for h, i in w.info.items():
+            if i.ids is not None and not i.foreign:
+                self.ids_seen[h] = i.ids
+
+    def _stale_view_check(self, w, what):
+        """a view left over from a cleared family (lingering .base): its gradient is None or the
+        corresponding view of its old base's CURRENT gradient - never an older value (C07)."""
+        for h, t in w.T.items():
+            i = w.info[h]
+            if not (i.stale and t.base is not None and h in self.ids_seen) or i.const or i.chain_const:
+                continue
+            g = w.read_grad(t, h)
+            if g is None:
+                continue
+            bg = w.read_grad(t.base, "base")
+            ids = self.ids_seen[h]
+            ok = False
+            if bg is not None and np.asarray(bg).size > int(ids.max()) if ids.size else True:
+                try:
+                    ok = bool(np.array_equal(np.asarray(g), np.asarray(bg).reshape(-1)[ids]))
+                except Exception:
+                    ok = True  # shapes no longer comparable (base was reshaped): nothing asserted
+            if not ok and bg is not None:
+                if w.violation("C07", "C07.stale_view_grad", f"step {w.nstep} ({what}): view handle {h} (left over from a cleared family) reads a gradient that is not the view of its base's current gradient - a stale value", tag=f"C07.stale_view_grad/{what.split(':')[0]}"):
+                    return True
+            if bg is None:
+                if w.violation("C07", "C07.stale_view_grad", f"step {w.nstep} ({what}): view handle {h} (left over from a cleared family) still reads a gradient although its base has none", tag=f"C07.stale_view_grad/base_has_none/{what.split(':')[0]}"):
+                    return True
+        return False
 
     @staticmethod
     def _state(w, h):
@@ -1326,6 +1356,8 @@ class GradLifetimeOracle(Observer):
                 self.exp[h] = ("dc",)
         # compare
         what = k + ":" + str(ev.get("form") or ev.get("op") or "")
+        if self._stale_view_check(w, what):
+            return
         owner_of = {}
         for h in w.T:
             i = w.info[h]
